@@ -2,7 +2,7 @@
 From Coq Require Import List NArith Bool Arith.
 Import ListNotations.
 From V.C04 Require Import Model.
-From V.Stmt Require Import Model.
+From V.Stmt Require Import Model Spec.
 
 Definition nn (n : nat) : N := N.of_nat n.
 Definition ser_binop (o : binop) : N :=
@@ -100,8 +100,12 @@ Definition parse_program (ts : list stok) : top :=
 Inductive robs := ROk (prog : list ast) | RErr | RBad.
 Record case := { rtoks : list stok; real : robs }.
 
-(* 1 = model and real parser disagree; 9 = model Unsup (not a failure) *)
+(* 1 = model and real parser disagree; 2 = the REAL parser accepted a tree with a missing operand / clause (the
+   property's accepted-is-complete clause, applied to the implementation's own tree); 9 = model Unsup (not a failure) *)
+Definition real_complete (c : case) : list nat :=
+  match real c with ROk r => if forallb cmp r then [] else [2] | _ => [] end.
 Definition check_case (c : case) : list nat :=
+  real_complete c ++
   match parse_program (rtoks c), real c with
   | TopUnsup, _ => [9]
   | TopOk m, ROk r => if nlist_eqb (ser (EList m)) (ser (EList r)) then [] else [1]
